@@ -16,9 +16,12 @@
 (*                                                                         *)
 (* One message m (sender, nonce, ts) is delivered up to MaxDeliver times;  *)
 (* unrelated fresh messages ("other") only exist to drive the lazy sweep.  *)
-(* The constants are the REAL configured values of a site (600 half        *)
-(* seconds for 5 minutes); TLC stays finite because the clock only visits  *)
-(* the boundary grid  t1 + a*2*TolS + b*TtlH + e  (e in Eps).              *)
+(* The constants are the REAL configured values of a site (tolerance 300 s,  *)
+(* retention 1202 half seconds = 2*tolerance + 1 s since arc 8359fcc; the   *)
+(* check measures them on the working tree); TLC stays finite because the   *)
+(* clock only visits the boundary grid  t1 + a*2*TolS + b*TtlH + e.         *)
+(* Negative controls TLC must reject: TtlH = 2*TolS (retention = tolerance, *)
+(* the code before 8359fcc) and TtlH = 4*TolS + 1 (half a second short).    *)
 (***************************************************************************)
 EXTENDS Integers, Sequences, FiniteSets, TLC, Json
 
